@@ -774,6 +774,20 @@ func (g *Gen) loopModified(li *loopInfo) (map[string][]ssa.Value, bool) {
 						continue
 					}
 				}
+				if bi, ok := x.Common().Value.(*ssa.Builtin); ok && (bi.Name() == "append" || bi.Name() == "copy") {
+					st := x.Common().Args[0].Type().Underlying().(*types.Slice)
+					h := g.arrHeap(st.Elem())
+					if bi.Name() == "append" {
+						// the model gives append a fresh backing array: no object that existed before the loop is written
+						add("$alloc", nil)
+						if _, ok := mods[h]; !ok {
+							mods[h] = []ssa.Value{}
+						}
+					} else {
+						add(h, x.Common().Args[0])
+					}
+					continue
+				}
 				hs, a := g.callModifies(x.Common())
 				if a {
 					all = true
